@@ -60,9 +60,13 @@ def file_inputs(rng, count):
         ftxt = gen.gen_user_factors_text(rng) if rng.random() < 0.5 else None
         r = rng.random()
         tag = "valid"
-        if rng.random() < 0.3:
-            txt = pf.valid_soup_file(rng)
-            tag = "valid_shared_ids"
+        if rng.random() < 0.4:
+            if rng.random() < 0.5:
+                txt = pf.valid_soup_file(rng)
+                tag = "valid_shared_ids"
+            else:
+                txt = pf.dhw_shared_id_file(rng)
+                tag = "valid_dhw_shared_id"
             r = 1.0
         if r < 0.45:
             txt = pf.corrupt_file(rng, txt)
